@@ -6,3 +6,11 @@ import Vise.Lemmas.CacheInv
 import Vise.Props.C09
 import Vise.Props.C14
 import Vise.Props.C15
+import Vise.Lemmas.VmMonad
+import Vise.Props.C01
+import Vise.Props.C04
+import Vise.Props.C06
+import Vise.Props.C17
+import Vise.Lemmas.Flags
+import Vise.Lemmas.Keeps
+import Vise.Props.C03
